@@ -116,30 +116,8 @@ def layGeoms (fl : String) : List BGeom → LState → List (MGeom UInt64) × LS
     (m :: ms, st)
 end
 
-open Mem in
-def readArr {β : Type} (ar : List (List β)) (s : Slice) : Option (List β) :=
-  if s.len == 0 then some [] else
-  match ar[s.addr]? with
-  | some a => if s.off + s.len ≤ a.length then some ((a.drop s.off).take s.len) else none
-  | none => none
-
-open Mem in
-def decodeGeom (m : Mem UInt64) : Nat → MGeom UInt64 → Option BGeom
-  | 0, _ => none
-  | fuel+1, g =>
-    match g with
-    | .point p => some (.point p)
-    | .multiPoint s => (readArr m.pts s).map .multiPoint
-    | .lineString s => (readArr m.pts s).map .lineString
-    | .multiLineString s => do let hs ← readArr m.paths s; let ls ← hs.mapM (readArr m.pts); pure (.multiLineString ls)
-    | .polygon s => do let hs ← readArr m.paths s; let ls ← hs.mapM (readArr m.pts); pure (.polygon ls)
-    | .multiPolygon s => do
-      let ps ← readArr m.polys s
-      let r ← ps.mapM fun p => do let hs ← readArr m.paths p; hs.mapM (readArr m.pts)
-      pure (.multiPolygon r)
-    | .collection s => do let gs ← readArr m.geoms s; let r ← gs.mapM (decodeGeom m fuel); pure (.collection r)
-    | .bounds a => (m.bnds[a]?).map fun (x, y) => .bounds x y
-    | .nil => some .nil
+/- `readArr` / `decodeGeom` (reading a geometry back out of a memory) are in MemDecode.lean, shared with the
+refinement theorems `C10_mem_refines_partial` / `_nil`. -/
 
 open Mem in
 /-- run `Mem.transformTop` on the laid-out input; the decoded outcome and whether the input still decodes
